@@ -537,7 +537,7 @@ func runChunk(p Property, bin string, race bool, tier string, seed int64, c *chu
 	}
 	racePrefix := out + ".race"
 	if race {
-		cmd.Env = append(cmd.Env, "GORACE=halt_on_error=0 log_path="+racePrefix)
+		cmd.Env = append(cmd.Env, "GORACE=halt_on_error=0 exitcode=0 log_path="+racePrefix)
 	}
 	errFile, _ := os.Create(out + ".stderr")
 	cmd.Stderr = errFile
